@@ -58,3 +58,80 @@ package app
 //@   ensures C14.filter_excl [C14]: forall k int :: in_range(k, result) ==> result[k].host != hostToFilterOut
 //@   ensures C14.filter_sub [C14]: forall k int :: in_range(k, result) ==> (exists m int :: in_range(m, positions) && result[k] == positions[m])
 //@   ensures C14.filter_keep [C14]: forall m int :: in_range(m, positions) && positions[m].host != hostToFilterOut ==> (exists k int :: in_range(k, result) && result[k] == positions[m])
+
+// ---- counters used by the failover gates (C05) and by the cascade exclusions (C16) -------------
+
+//@ define runningHA(s *nodestate.NodeState) = s.PingOk && s.SlaveState != nil && !s.IsCascade && s.SlaveState.ReplicationState == mysql.ReplicationRunning
+//@ define aliveHA(cs map[string]*nodestate.NodeState, h string) = has(cs, h) && cs[h].PingOk && cs[h].SlaveState != nil && !cs[h].IsCascade
+
+//@ func app.countRunningHASlaves
+//@   requires vals_nonnil [safety]: forall k string :: has(clusterState, k) ==> clusterState[k] != nil
+//@   loop 1 invariant cnt: cnt == count(k string in visited :: runningHA(clusterState[k]))
+//@   ensures C05.running [C05,C16]: result == count(k string in dom(clusterState) :: runningHA(clusterState[k]))
+
+//@ func app.countHANodes
+//@   requires vals_nonnil [safety]: forall k string :: has(clusterState, k) ==> clusterState[k] != nil
+//@   loop 1 invariant cnt: cnt == count(k string in visited :: !clusterState[k].IsCascade)
+//@   ensures C05.ha [C05,C16]: result == count(k string in dom(clusterState) :: !clusterState[k].IsCascade)
+
+//@ func app.countAliveHASlavesWithinNodes
+//@   requires vals_nonnil [safety]: forall k string :: has(clusterState, k) ==> clusterState[k] != nil
+//@   loop 1 invariant idx: -1 <= rangeindex && rangeindex < len(nodes)
+//@   loop 1 invariant cnt: cnt == count(i int in range(0, rangeindex + 1) :: aliveHA(clusterState, nodes[i]))
+//@   ensures C05.alive [C05,C16,C06]: result == count(i int in range(0, len(nodes)) :: aliveHA(clusterState, nodes[i]))
+//@   ensures C05.alive_nonneg [C05,C06]: result >= 0
+
+// ---- C16: cascade source resolution ------------------------------------------------------------
+
+//@ define healthySrc(cs map[string]*nodestate.NodeState, s string, lagBound float64) = cs[s].PingOk && !cs[s].IsOffline && (cs[s].IsMaster || (cs[s].SlaveState != nil && cs[s].SlaveState.ReplicationState == mysql.ReplicationRunning && cs[s].SlaveState.ReplicationLag != nil && deref(cs[s].SlaveState.ReplicationLag) < lagBound))
+//@ define streamingFrom(cs map[string]*nodestate.NodeState, h string, s string) = cs[h].SlaveState != nil && cs[h].SlaveState.ReplicationState == mysql.ReplicationRunning && cs[h].SlaveState.MasterHost == s
+// ancOf(k): k-th element of the configured stream_from chain starting at the replica (ghost, defined by the two
+// [ghostdef] preconditions below; a definitional extension, satisfiable for every topology).
+//@ ufunc ancOf(int) string
+//@ define nearestForm(cs map[string]*nodestate.NodeState, h string, r string, lagBound float64) = exists k int :: k >= 1 && r == ancOf(k) && r != "" && (healthySrc(cs, r, lagBound) || (k == 1 && streamingFrom(cs, h, r))) && (forall j int :: 1 <= j && j < k ==> !healthySrc(cs, ancOf(j), lagBound) && ancOf(j) != "") && (k >= 2 ==> !streamingFrom(cs, h, ancOf(1))) && (forall a int, b int :: 0 <= a && a < b && b <= k ==> ancOf(a) != ancOf(b))
+//@ define fallbackForm(cs map[string]*nodestate.NodeState, h string, lagBound float64) = exists k int :: k >= 0 && (ancOf(k + 1) == "" || (exists j int :: 0 <= j && j <= k && ancOf(k + 1) == ancOf(j))) && (forall j int :: 1 <= j && j <= k ==> !healthySrc(cs, ancOf(j), lagBound) && ancOf(j) != "") && (k >= 1 ==> !streamingFrom(cs, h, ancOf(1)))
+
+//@ func (*app.App).findBestStreamFrom
+//@   requires notmaster: node.host != master
+//@   requires chain0 [ghostdef]: ancOf(0) == node.host
+//@   requires chainS [ghostdef]: forall k int :: k >= 0 ==> ancOf(k + 1) == cascadeTopology[ancOf(k)].StreamFrom
+//@   loop 1 invariant len: len(loopDetector) >= 1
+//@   loop 1 invariant chain: forall k int :: in_range(k, loopDetector) ==> loopDetector[k] == ancOf(k)
+//@   loop 1 invariant distinct: forall a int, b int :: 0 <= a && a < b && b < len(loopDetector) ==> loopDetector[a] != loopDetector[b]
+//@   loop 1 invariant unhealthy: forall k int :: 1 <= k && k < len(loopDetector) ==> !healthySrc(clusterState, loopDetector[k], seconds(app.config.StreamFromReasonableLag)) && loopDetector[k] != ""
+//@   loop 1 invariant notstreaming: len(loopDetector) >= 2 ==> !streamingFrom(clusterState, node.host, loopDetector[1])
+//@   ensures C16.notself [C16,C10]: result != node.host
+//@   ensures C16.resolution [C16]: nearestForm(clusterState, node.host, result, seconds(app.config.StreamFromReasonableLag)) || (result == master && fallbackForm(clusterState, node.host, seconds(app.config.StreamFromReasonableLag)))
+//@   ensures C16.configured [C16]: ancOf(1) != "" && ancOf(1) != node.host && (healthySrc(clusterState, ancOf(1), seconds(app.config.StreamFromReasonableLag)) || streamingFrom(clusterState, node.host, ancOf(1))) ==> result == ancOf(1)
+
+// ---- C18: disk-space guard --------------------------------------------------------------------
+
+//@ define duOf(s *nodestate.NodeState) = usageOf(s.DiskState.Used, s.DiskState.Total)
+//@ define isMasterEntry(cs map[string]*nodestate.NodeState, k string, mh string) = cs[k].DiskState != nil && cs[k].IsMaster && mh == k
+//@ define ssRepl(cs map[string]*nodestate.NodeState, k string, mh string, semi bool) = cs[k].DiskState != nil && !(cs[k].IsMaster && mh == k) && semi && cs[k].SemiSyncState != nil && cs[k].SemiSyncState.SlaveEnabled && cs[k].SlaveState != nil && cs[k].SlaveState.ReplicationState == mysql.ReplicationRunning
+//@ define cntRepl(cs map[string]*nodestate.NodeState, S set[string], mh string, semi bool) = count(k string in S :: ssRepl(cs, k, mh, semi))
+//@ define cntLow(cs map[string]*nodestate.NodeState, S set[string], mh string, semi bool, crit float64) = count(k string in S :: ssRepl(cs, k, mh, semi) && duOf(cs[k]) >= crit)
+//@ define cntNormal(cs map[string]*nodestate.NodeState, S set[string], mh string, semi bool, crit float64, ncrit float64) = count(k string in S :: ssRepl(cs, k, mh, semi) && !(duOf(cs[k]) >= crit) && !(duOf(cs[k]) > ncrit))
+//@ define masterCrit(cs map[string]*nodestate.NodeState, S set[string], mh string, crit float64) = exists k string :: S[k] && isMasterEntry(cs, k, mh) && duOf(cs[k]) >= crit
+//@ define masterGrey(cs map[string]*nodestate.NodeState, S set[string], mh string, crit float64, ncrit float64) = exists k string :: S[k] && isMasterEntry(cs, k, mh) && !(duOf(cs[k]) >= crit) && duOf(cs[k]) > ncrit
+//@ define replCrit(ms *nodestate.NodeState, running int, low int) = running > 0 && ms.SemiSyncState != nil && low > running - ms.SemiSyncState.WaitSlaveCount
+//@ define needRoSpec(app *App, mn *mysql.Node, ms *nodestate.NodeState, cs map[string]*nodestate.NodeState) = masterCrit(cs, dom(cs), mn.host, app.config.CriticalDiskUsage) || replCrit(ms, cntRepl(cs, dom(cs), mn.host, app.config.SemiSync), cntLow(cs, dom(cs), mn.host, app.config.SemiSync, app.config.CriticalDiskUsage))
+//@ define mayWriteSpec(app *App, mn *mysql.Node, ms *nodestate.NodeState, cs map[string]*nodestate.NodeState) = !masterGrey(cs, dom(cs), mn.host, app.config.CriticalDiskUsage, app.config.NotCriticalDiskUsage) && !(cntRepl(cs, dom(cs), mn.host, app.config.SemiSync) > 0 && !replCrit(ms, cntRepl(cs, dom(cs), mn.host, app.config.SemiSync), cntLow(cs, dom(cs), mn.host, app.config.SemiSync, app.config.CriticalDiskUsage)) && cntNormal(cs, dom(cs), mn.host, app.config.SemiSync, app.config.CriticalDiskUsage, app.config.NotCriticalDiskUsage) == 0)
+//@ define alreadyRo(app *App, ms *nodestate.NodeState) = ms.IsReadOnly && (app.config.KeepSuperWritableOnCriticalDiskUsage != ms.IsSuperReadOnly)
+
+//@ func (*app.App).repairReadOnlyOnMaster
+//@   requires vals_nonnil [safety]: forall k string :: has(clusterStateDcs, k) ==> clusterStateDcs[k] != nil
+//@   loop 1 invariant running: replicasRunning == cntRepl(clusterStateDcs, visited, masterNode.host, app.config.SemiSync)
+//@   loop 1 invariant low: replicasLow == cntLow(clusterStateDcs, visited, masterNode.host, app.config.SemiSync, app.config.CriticalDiskUsage)
+//@   loop 1 invariant normal: replicasNormal == cntNormal(clusterStateDcs, visited, masterNode.host, app.config.SemiSync, app.config.CriticalDiskUsage, app.config.NotCriticalDiskUsage)
+//@   loop 1 invariant needro: needRo <==> masterCrit(clusterStateDcs, visited, masterNode.host, app.config.CriticalDiskUsage)
+//@   loop 1 invariant maywrite: mayWrite <==> !masterGrey(clusterStateDcs, visited, masterNode.host, app.config.CriticalDiskUsage, app.config.NotCriticalDiskUsage)
+//@   loop 1 invariant noeffect: e_SetReadOnly == old(e_SetReadOnly) && e_SetWritable == old(e_SetWritable) && e_SetLowSpace == old(e_SetLowSpace) && tick == old(tick) && touched == old(touched)
+//@   ensures C18.ro [C18]: e_SetReadOnly == old(e_SetReadOnly) + ((needRoSpec(app, masterNode, masterState, clusterStateDcs) && !alreadyRo(app, masterState)) ? 1 : 0)
+//@   ensures C18.rw [C18]: e_SetWritable == old(e_SetWritable) + ((!needRoSpec(app, masterNode, masterState, clusterStateDcs) && mayWriteSpec(app, masterNode, masterState, clusterStateDcs) && masterState.IsReadOnly) ? 1 : 0)
+//@   ensures C18.lowcount [C18]: e_SetLowSpace <= old(e_SetLowSpace) + 1 && (e_SetLowSpace == old(e_SetLowSpace) + 1 ==> e_SetReadOnly == old(e_SetReadOnly) + 1 || e_SetWritable == old(e_SetWritable) + 1)
+//@   ensures C18.onlymaster [C18]: forall h string :: h != masterNode.host ==> touched[h] == old(touched)[h]
+//@   assert_at SetReadOnlyWithForce#1 C18.flavour [C18]: callrecv == masterNode && callarg1 == !app.config.KeepSuperWritableOnCriticalDiskUsage
+//@   assert_at SetWritable#1 C18.rw_target [C18]: callrecv == masterNode
+//@   assert_at SetLowSpace#1 C18.low_true [C18]: callarg0 == true && g_ro[masterNode.host] && e_SetReadOnly == old(e_SetReadOnly) + 1
+//@   assert_at SetLowSpace#2 C18.low_false [C18]: callarg0 == false && !g_ro[masterNode.host] && e_SetWritable == old(e_SetWritable) + 1
